@@ -57,6 +57,7 @@ class Verifier:
                 ctx.solver.add(ax)
             I = Interp(ctx, self)
             I.globals = {}
+            I.ghost = {}
             self.path_id = self.paths
             try:
                 self.run_path(I)
@@ -95,6 +96,15 @@ class Verifier:
         for p in sig:
             if p not in params:
                 raise Unsupported(f"contract of {c.target} does not type parameter {p}")
+        for gname, gty in c.ghost.get("vars", {}).items():
+            gv = self.make_value(I, gty, gname) if not gty.startswith("empty:") else None
+            if gv is None:
+                from .core import slist_of
+
+                gv = slist_of(I.ctx, [], parse_ty(gty[6:]).elem)
+            I.ghost[gname] = gv
+        for gname in self.contract_globals(c.target):
+            self.global_value(I, gname)
         I.old_env, I.old_map = self.snapshot(I, env)
         for label, expr in c.requires.items():
             self.assume_clause(I, env, expr)
@@ -114,10 +124,10 @@ class Verifier:
         if fr.is_generator and raised is None:
             pass
         post_env = Env(env)  # locals at the exit point are visible to clauses (use ifdef for path-local names)
-        post_env.vars["result"] = result
+        post_env.vars[c.result_name] = result
         if c.trace_name:
             post_env.vars[c.trace_name] = PyList(fr.trace) if not getattr(fr, "trace_sym", None) else fr.trace_sym
-        vo = Obligation(self.c.target.split("inline_snapshot.", 1)[-1], "vacuity", "exit-reachable", [], list(I.ctx.pc), z3.BoolVal(False), self.path_id)
+        vo = Obligation((self.c.name or self.c.target).split("inline_snapshot.", 1)[-1], "vacuity", "exit-reachable", [], list(I.ctx.pc), z3.BoolVal(False), self.path_id)
         self.vacuity_obligations.append(vo)
         if raised is not None:
             self.cover(I, f"raise:{raised.cls}")
@@ -167,7 +177,7 @@ class Verifier:
 
     def make_shape(self, I: Interp, name, hint):
         sh = self.shape(name)
-        o = Obj(sh.cls)
+        o = Obj(sh.cls if not (hint == "self" and self.c.self_cls) else self.c.self_cls)
         for f, t in sh.fields.items():
             o.fields[f] = self.make_value(I, t, f"{hint}.{f}")
         return o
@@ -268,7 +278,7 @@ class Verifier:
                 if tag in using or not _has_quantifier(a):
                     keep.append(a)
             assumptions = keep
-        o = Obligation(self.c.target.split("inline_snapshot.", 1)[-1], kind, name, props, assumptions, goal, self.path_id, where)
+        o = Obligation((self.c.name or self.c.target).split("inline_snapshot.", 1)[-1], kind, name, props, assumptions, goal, self.path_id, where)
         o.no_axioms = using is not None and "axioms" not in using
         if z3.is_true(goal):
             o.status, o.backend = "discharged", "simplify"
@@ -378,6 +388,11 @@ class Verifier:
 
     def on_loop_havoc(self, I, st, env, spec):
         fr = I.frame
+        if fr.qual == self.c.target:
+            from .stmts import havoc_value
+
+            for g in list(I.ghost):
+                I.ghost[g] = havoc_value(I, I.ghost[g], g)
         if fr.is_generator and any(isinstance(n, (ast.Yield, ast.YieldFrom)) for n in ast.walk(st)):
             self.havoc_trace(I, fr)
 
@@ -584,7 +599,9 @@ class Verifier:
 
     # ------------------------------------------------------------------ globals
     def contract_globals(self, qual):
-        return self.c.globals_
+        d = dict(self.default_policies.get("globals", {}))
+        d.update(self.c.globals_)
+        return d
 
     def global_value(self, I: Interp, name):
         if name not in I.globals:
@@ -606,14 +623,21 @@ class Verifier:
 
     # ------------------------------------------------------------------ calls
     def contract_for(self, qual):
-        return REGISTRY.get(qual)
+        c = REGISTRY.get(qual)
+        if c is not None:
+            return c
+        for k, c in REGISTRY.items():
+            if c.target == qual and c.ghost.get("callee_default"):
+                return c
+        return None
 
     def callee_policy(self, I, qual, default=None):
         short = qual.rsplit(".", 1)[-1]
-        for k in (qual, qual.split("inline_snapshot.", 1)[-1], short):
+        two = ".".join(qual.split(".")[-2:])
+        for k in (qual, qual.split("inline_snapshot.", 1)[-1], two, short):
             if k in self.c.callees:
                 return self.c.callees[k]
-        if qual in REGISTRY and qual != self.c.target:
+        if self.contract_for(qual) is not None and qual != self.c.target:
             return "contract"
         if qual == self.c.target:
             return "contract"  # recursion uses the function's own contract
@@ -715,6 +739,12 @@ class Verifier:
         if fnode is None:
             _, fnode, _, _ = extract.find_function(c.target)
         bound = bind_args(fnode, args, kwargs, I, Env(), I.frame)
+        for pn, pt in c.params.items():
+            if pn in bound and isinstance(pt, str) and pt == "Val":
+                from .specs import val_term
+
+                if not (isinstance(bound[pn], SV) and bound[pn].ty == Abs("Val")) and not isinstance(bound[pn], Opaque):
+                    bound[pn] = SV(val_term(I, bound[pn]), Abs("Val"))
         env = Env()
         env.vars.update(bound)
         callee = c.target.split("inline_snapshot.", 1)[-1]
@@ -747,7 +777,7 @@ class Verifier:
                     for label, expr in raises[ex].items():
                         I.ctx.assume(sub.clause_bool(I, env, expr))
                     raise RaiseSig(ex, info=[f"from contract of {callee}"])
-            env.vars["result"] = result
+            env.vars[c.result_name] = result
             sub = _SubVerifier(self, c)
             for label, expr in c.ensures.items():
                 I.ctx.assume(sub.clause_bool(I, env, expr))
